@@ -4,6 +4,7 @@ import (
 	"fmt"
 	"math/rand"
 	"regexp"
+	"strconv"
 	"strings"
 	"unicode/utf8"
 
@@ -161,7 +162,7 @@ func layoutFeatures(text string, toks []token, offs []int, feats map[string]int)
 var (
 	reDigits = regexp.MustCompile(`[0-9]+`)
 	reQuoted = regexp.MustCompile(`"(?:[^"\\]|\\.)*"`)
-	rePosMsg = regexp.MustCompile(`^(\w+): want \d+:\d+, got \d+:\d+$`)
+	rePosMsg = regexp.MustCompile(`^(\w+): want (\d+):(\d+), got (\d+):(\d+)$`)
 	rePath   = regexp.MustCompile(`\(\*syntax\.(\w+)\)[^/]*$`)
 )
 
@@ -191,7 +192,7 @@ func errMsg(err error) string {
 }
 
 // mismatchKey derives a stable key from a gen.Compare error ("at /path: message").
-func mismatchKey(err error) string {
+func mismatchKey(err error, text string, toks []token) string {
 	s := err.Error()
 	path, msg := s, s
 	if i := strings.Index(s, ": "); i >= 0 {
@@ -204,7 +205,11 @@ func mismatchKey(err error) string {
 		node = reDigits.ReplaceAllString(path[j+1:], "N")
 	}
 	if m := rePosMsg.FindStringSubmatch(msg); m != nil {
-		return "C14 position " + node + "." + m[1]
+		var v [4]int
+		for i := range v {
+			v[i], _ = strconv.Atoi(m[i+2])
+		}
+		return "C14 position " + positionClass(text, toks, v[0], v[1], v[2], v[3])
 	}
 	return "C14 tree-mismatch " + node + ": " + normMsg(msg)
 }
@@ -420,7 +425,7 @@ func treeCase(c *driver.Ctx, idx int) {
 		c.Eval(1)
 		c.Count("tree_renderings_parsed", 1)
 		if perr != nil {
-			c.Violation("C14 reject grammatical-text: "+normMsg(errMsg(perr)),
+			c.Violation(rejectKey(perr, toks),
 				fmt.Sprintf("a text rendered from a syntax tree (%s, layout %s) is rejected: %v", what, sp.name, perr), detail(map[string]any{"error": perr.Error()}))
 			ok = false
 			continue
@@ -432,7 +437,7 @@ func treeCase(c *driver.Ctx, idx int) {
 			cerr = gen.CompareStmts(stmts, file.Stmts, gen.CompareOpts{Positions: true, Raw: true})
 		}
 		if cerr != nil {
-			c.Violation(mismatchKey(cerr), fmt.Sprintf("the parsed tree differs from the generated one (%s, layout %s): %v", what, sp.name, cerr), detail(map[string]any{"difference": cerr.Error()}))
+			c.Violation(mismatchKey(cerr, text, toks), fmt.Sprintf("the parsed tree differs from the generated one (%s, layout %s): %v", what, sp.name, cerr), detail(map[string]any{"difference": cerr.Error()}))
 			ok = false
 			continue
 		}
@@ -471,3 +476,82 @@ func treeCase(c *driver.Ctx, idx int) {
 }
 
 func e2(g *treeGen) syntax.Expr { return g.expr(2) }
+
+// positionClass names what precedes the first token whose reported position differs from where the
+// text has it, so that one cause of wrong coordinates gives one violation key whichever node it hits.
+func positionClass(text string, toks []token, wantLine, wantCol, gotLine, gotCol int) string {
+	lines := strings.Split(text, "\n")
+	if wantLine < 1 || wantLine > len(lines) {
+		return "unknown"
+	}
+	if gotLine == 0 && gotCol == 0 {
+		return "missing"
+	}
+	if gotLine != wantLine {
+		best, class := 0, "line"
+		inside := map[int]bool{} // physical lines that end inside a multi-line token
+		for _, t := range toks {
+			if n := strings.Count(t.text, "\n"); n > 0 {
+				for l := int(t.line); l < int(t.line)+n; l++ {
+					inside[l] = true
+				}
+				if end := int(t.line) + n; end <= wantLine && end > best {
+					best, class = end, "line-after-multi-line-token"
+					if strings.Contains(t.text, "\r") {
+						class = "line-after-multi-line-token-with-CRLF"
+					}
+				}
+			}
+		}
+		for l := wantLine - 1; l >= 1; l-- {
+			if strings.HasSuffix(lines[l-1], "\\") && !inside[l] {
+				if l+1 > best {
+					class = "line-after-backslash-continuation"
+				}
+				break
+			}
+		}
+		return class
+	}
+	pre := []rune(lines[wantLine-1])
+	if wantCol-1 <= len(pre) {
+		pre = pre[:wantCol-1]
+	}
+	tab, wide := false, false
+	for _, c := range pre {
+		if c == '\t' {
+			tab = true
+		}
+		if c >= 0x80 {
+			wide = true
+		}
+	}
+	switch {
+	case tab && wide:
+		return "column-after-tab-and-non-ascii"
+	case tab:
+		return "column-after-tab"
+	case wide:
+		return "column-after-non-ascii"
+	}
+	return "column"
+}
+
+var reGotWant = regexp.MustCompile(`^got (.*?)( after expression)?, want `)
+
+// rejectKey names the rejection of a grammatical text: by the kind of token inside which the error
+// is reported (then the scanner split a token), otherwise by the unexpected token or the message.
+func rejectKey(err error, toks []token) string {
+	const pre = "C14 reject grammatical-text: "
+	if e, ok := err.(syntax.Error); ok {
+		for _, t := range toks {
+			if !strings.Contains(t.text, "\n") && t.line == e.Pos.Line && t.col < e.Pos.Col && e.Pos.Col < t.col+int32(utf8.RuneCountInString(t.text)) {
+				return pre + "error inside " + tokClass(t.text) + " token"
+			}
+		}
+		if m := reGotWant.FindStringSubmatch(e.Msg); m != nil {
+			return pre + "got " + m[1]
+		}
+	}
+	return pre + normMsg(errMsg(err))
+}
